@@ -292,6 +292,7 @@ def run_shard(ctx):
         ctx.count('long_trace_cases')
         full_check(ctx, cls, n, scripts, opts, spec, 'solve_t', 1, 0.5, (None, None), case, repeat)
     parser_models(ctx)
+    integer_models(ctx)
 
 
 def parser_models(ctx):
@@ -356,6 +357,65 @@ def parser_models(ctx):
                     stored = [float(A[x][t]) for x in names]
                     if not all(a == b or (math.isnan(a) and math.isnan(b)) for a, b in zip(got[:, -1].tolist(), stored)):
                         ctx.violation('trace-end-not-solution', f'parser model period {t}: end {got[:, -1].tolist()} stored {stored}', case)
+
+
+def integer_models(ctx):
+    """Models whose variables are integers too large for float64 (unique ids above 2**53): a snapshot holds those values, not
+    their nearest floats."""
+    import fsic
+    from fsic.extensions import TracerMixin
+    rng = ctx.rng('c17-int')
+    Model = fsic.build_model(fsic.parse_model('Y = X + 1\nZ = Y[-1] + X * 2'))
+
+    class R(Model):
+        def _evaluate(self, t, **kw):
+            super()._evaluate(t, **kw)
+            self.__dict__.setdefault('v_passvals', []).append((t, kw.get('iteration'), {x: int(self[x][t]) for x in self.names}))
+
+    class TR(TracerMixin, R):
+        pass
+
+    big = 2 ** 53 + 1
+    for rep in range(ctx.pick(6, 40)):
+        n = 5
+        spec = rng.choice([True, ['Y', 'Z'], 'Z', ['X']])
+        xs = [rng.choice([1, -1]) * (big + 2 * rng.randrange(1000)) for _ in range(n)]
+        entry = rng.choice(['solve', 'solve_t', 'solve_period'])
+        case = dict(kind='integer-model', trace=spec, X=xs, entry=entry)
+        ctx.evaluation(case, nontrivial=True, sample=case)
+        A, B = TR(range(n), dtype=int, X=xs), TR(range(n), dtype=int, X=xs)
+        if entry == 'solve':
+            ra, rb = call(A.solve, trace=spec), call(B.solve)
+        elif entry == 'solve_t':
+            ra, rb = [call(A.solve_t, t, trace=spec) for t in range(1, n)], [call(B.solve_t, t) for t in range(1, n)]
+        else:
+            ra, rb = [call(A.solve_period, t, trace=spec) for t in range(1, n)], [call(B.solve_period, t) for t in range(1, n)]
+        ctx.count('twin_runs_compared')
+        if ra != rb or any(A[x].tolist() != B[x].tolist() for x in Model.NAMES) or list(A.status) != list(B.status):
+            ctx.violation('tracing-changes-solution', f'integer model: traced {ra} vs untraced {rb}', case)
+            continue
+        names = [spec] if isinstance(spec, str) else (list(spec) if isinstance(spec, list) else list(Model.NAMES))
+        pv = {}
+        for t, it, v in B.__dict__.get('v_passvals', []):
+            pv.setdefault(t, []).append((it, v))
+        for t in range(1, n):
+            tr = A['trace'][t]
+            passes = pv.get(t, [])
+            ctx.count('trace_snapshots_compared', len(passes) + 1)
+            got = np.asarray(tr.values)
+            for j, (it, v) in enumerate(passes):
+                col = [int(x) if float(x) == int(x) else x for x in got[:, 3 + j].tolist()]
+                w = [v[x] for x in names]
+                if col != w:
+                    ctx.violation('trace-values', f'integer model period {t} pass {it}: snapshot holds {col} ({got.dtype}), the model held {w}', case)
+                    break
+            else:
+                stored = [int(A[x][t]) for x in names]
+                end = [int(x) if float(x) == int(x) else x for x in got[:, -1].tolist()]
+                if str(A.status[t]) == '.' and end != stored:
+                    ctx.violation('trace-end-not-solution', f'integer model period {t}: final snapshot {end} ({got.dtype}), stored solution {stored}', case)
+                continue
+            break
 
 
 def replay(ctx, case):
